@@ -248,9 +248,29 @@ def run(ctx) -> list[Inst]:
     f = prog.func('ingest_model')
     g = prog.func('get_model')
     written = set()
-    for g_ in ctx.an.reachable([f]).values():
+    starred = False
+    reach = list(ctx.an.reachable([f]).values())
+    for g_ in reach:
         for nc in _calls(g_, 'Node'):
             written |= {kw.arg for kw in nc.keywords if kw.arg}
+            for kw in nc.keywords:
+                if kw.arg is None:
+                    # Node(label, **properties): the keys are the keyword arguments of the calls of this helper
+                    kwn = g_.node.args.kwarg.arg if g_.node.args.kwarg is not None else None
+                    if isinstance(kw.value, ast.Name) and kw.value.id == kwn:
+                        named = {a.arg for a in g_.node.args.args + g_.node.args.kwonlyargs}
+                        found = False
+                        for h_ in reach:
+                            for c_ in own_nodes(h_.node):
+                                if isinstance(c_, ast.Call) and stmt_text(c_.func).split('.')[-1] == g_.name:
+                                    found = True
+                                    if any(k.arg is None for k in c_.keywords):
+                                        starred = True
+                                    written |= {k.arg for k in c_.keywords if k.arg and k.arg not in named}
+                        if not found:
+                            starred = True
+                    else:
+                        starred = True
     read = set()
     # variables holding the property dictionary of a database node: `x = dict(<row>[...])`
     node_dicts = set()
@@ -265,6 +285,11 @@ def run(ctx) -> list[Inst]:
             read.add(n.slice.value)
     construct = '(d) node properties read by get_model are written by ingest_model'
     miss = sorted(read - written)
+    if miss and starred:
+        insts.append(Inst(RULE, 'get_model', construct, 'unproven',
+                          msg=f'properties are passed on as **kwargs from a place not resolved; {miss} not seen', file=g.module.relpath,
+                          line=g.node.lineno, props=PROPS))
+        return insts
     insts.append(Inst(RULE, 'get_model', construct, 'ok' if not miss and read else ('violation' if miss else 'unproven'),
                       msg='' if not miss else f'get_model reads {miss} but ingest_model writes {sorted(written)}',
                       file=g.module.relpath, line=g.node.lineno, props=PROPS))
